@@ -9,6 +9,7 @@ function of `DecodeProvider.Run` makes a lemma below fail to check.
 import Pandora.Gen.C13Src
 import Pandora.Model.C13Funcs
 import Pandora.Model.C13Multi
+import Pandora.Model.C13Jsonline
 
 set_option linter.unusedSimpArgs false
 
@@ -117,98 +118,151 @@ theorem readChunkSize_bridge : 0 < Gen.C13Src.readChunkSize ∧ Gen.C13Src.readC
   unfold Gen.C13Src.readChunkSize memCap
   omega
 
-/-! ### the end of a pass in the decoders' `Scan` -/
+/-! ### the end of a pass in the decoders' `Scan`
 
-def passEndOf (limitTest noAmmoTest : Bool) : PassEnd :=
-  if limitTest then .stop .ok else if noAmmoTest then .stop (.err "noammo") else .again
+The regenerated `…PassEnd` functions are the statements between the end of the file and the next read, executed in source
+order. Each is proved equal to the model for ALL values: reordering independent statements or writing a test in an
+equivalent way leaves the proofs intact, a changed test, a test moved across `d.passNum++`, or a missing seek does not. -/
+
+/-- 0 = read again | 1 = ErrPassLimit | 2 = ErrNoAmmo -/
+def passEndCode : PassEnd → Int
+  | .again => 0
+  | .stop .ok => 1
+  | .stop _ => 2
 
 theorem uripostPassEnd_bridge (passes passNum ammoNum : Nat) :
-    Gen.C13Src.uripostPassEndSeq = ["passNum++", "ErrPassLimit", "ErrNoAmmo", "Seek"] ∧
-    httpPassEnd passes passNum ammoNum =
-      passEndOf (decide (Gen.C13Src.uripostPassLimit passes passNum)) (decide (Gen.C13Src.uripostNoAmmo ammoNum)) := by
-  refine ⟨rfl, ?_⟩
-  unfold httpPassEnd passEndOf Gen.C13Src.uripostPassLimit Gen.C13Src.uripostNoAmmo
-  by_cases h : passes ≠ 0 ∧ passNum ≥ passes
-  · have : ((passes : Int) ≠ 0 ∧ (passNum : Int) ≥ passes) := by omega
-    simp (disch := omega) [h, this, if_pos, if_neg]
-  · have h' : ¬ ((passes : Int) ≠ 0 ∧ (passNum : Int) ≥ passes) := by omega
-    by_cases ha : ammoNum = 0
+    (Gen.C13Src.uripostPassEnd passes passNum ammoNum).1 = passEndCode (httpPassEnd passes (passNum + 1) ammoNum) ∧
+    ((Gen.C13Src.uripostPassEnd passes passNum ammoNum).1 = 0 →
+      (Gen.C13Src.uripostPassEnd passes passNum ammoNum).2.1 = ((passNum + 1 : Nat) : Int) ∧
+      (Gen.C13Src.uripostPassEnd passes passNum ammoNum).2.2 = true) := by
+  unfold Gen.C13Src.uripostPassEnd httpPassEnd passEndCode
+  by_cases h : passes ≠ 0 ∧ passNum + 1 ≥ passes
+  · simp (disch := omega) [h, if_pos, if_neg]
+  · by_cases ha : ammoNum = 0
     · simp (disch := omega) [h, ha, if_pos, if_neg]
     · simp (disch := omega) [h, ha, if_pos, if_neg]
 
 theorem rawPassEnd_bridge (passes passNum ammoNum : Nat) :
-    Gen.C13Src.rawPassEndSeq = ["passNum++", "ErrPassLimit", "ErrNoAmmo", "Seek"] ∧
-    httpPassEnd passes passNum ammoNum =
-      passEndOf (decide (Gen.C13Src.rawPassLimit passes passNum)) (decide (Gen.C13Src.rawNoAmmo ammoNum)) := by
-  refine ⟨rfl, ?_⟩
-  unfold httpPassEnd passEndOf Gen.C13Src.rawPassLimit Gen.C13Src.rawNoAmmo
-  by_cases h : passes ≠ 0 ∧ passNum ≥ passes
-  · have : ((passes : Int) ≠ 0 ∧ (passNum : Int) ≥ passes) := by omega
-    simp (disch := omega) [h, this, if_pos, if_neg]
-  · have h' : ¬ ((passes : Int) ≠ 0 ∧ (passNum : Int) ≥ passes) := by omega
-    by_cases ha : ammoNum = 0
+    (Gen.C13Src.rawPassEnd passes passNum ammoNum).1 = passEndCode (httpPassEnd passes (passNum + 1) ammoNum) ∧
+    ((Gen.C13Src.rawPassEnd passes passNum ammoNum).1 = 0 →
+      (Gen.C13Src.rawPassEnd passes passNum ammoNum).2.1 = ((passNum + 1 : Nat) : Int) ∧
+      (Gen.C13Src.rawPassEnd passes passNum ammoNum).2.2 = true) := by
+  unfold Gen.C13Src.rawPassEnd httpPassEnd passEndCode
+  by_cases h : passes ≠ 0 ∧ passNum + 1 ≥ passes
+  · simp (disch := omega) [h, if_pos, if_neg]
+  · by_cases ha : ammoNum = 0
     · simp (disch := omega) [h, ha, if_pos, if_neg]
     · simp (disch := omega) [h, ha, if_pos, if_neg]
 
 theorem uriPassEnd_bridge (passes passNum ammoNum : Nat) :
-    Gen.C13Src.uriPassEndSeq = ["passNum++", "ErrPassLimit", "ErrNoAmmo", "Seek"] ∧
-    httpPassEnd passes passNum ammoNum =
-      passEndOf (decide (Gen.C13Src.uriPassLimit passes passNum)) (decide (Gen.C13Src.uriNoAmmo ammoNum)) := by
-  refine ⟨rfl, ?_⟩
-  unfold httpPassEnd passEndOf Gen.C13Src.uriPassLimit Gen.C13Src.uriNoAmmo
-  by_cases h : passes ≠ 0 ∧ passNum ≥ passes
-  · have : ((passes : Int) ≠ 0 ∧ (passNum : Int) ≥ passes) := by omega
-    simp (disch := omega) [h, this, if_pos, if_neg]
-  · have h' : ¬ ((passes : Int) ≠ 0 ∧ (passNum : Int) ≥ passes) := by omega
-    by_cases ha : ammoNum = 0
+    (Gen.C13Src.uriPassEnd passes passNum ammoNum).1 = passEndCode (httpPassEnd passes (passNum + 1) ammoNum) ∧
+    ((Gen.C13Src.uriPassEnd passes passNum ammoNum).1 = 0 →
+      (Gen.C13Src.uriPassEnd passes passNum ammoNum).2.1 = ((passNum + 1 : Nat) : Int) ∧
+      (Gen.C13Src.uriPassEnd passes passNum ammoNum).2.2 = true) := by
+  unfold Gen.C13Src.uriPassEnd httpPassEnd passEndCode
+  by_cases h : passes ≠ 0 ∧ passNum + 1 ≥ passes
+  · simp (disch := omega) [h, if_pos, if_neg]
+  · by_cases ha : ammoNum = 0
     · simp (disch := omega) [h, ha, if_pos, if_neg]
     · simp (disch := omega) [h, ha, if_pos, if_neg]
 
-/-- the jsonline decoder asks the same two questions; it tests the pass limit at the top of its loop (after the seek),
-and "no ammo" before it counts the pass - either way a file without entries is never read twice -/
-theorem jsonlinePassEnd_bridge (passes passNum ammoNum : Int) :
-    Gen.C13Src.jsonlinePassEndSeq = ["ErrPassLimit", "ErrNoAmmo", "passNum++", "Seek"] ∧
-    (Gen.C13Src.jsonlinePassLimit passes passNum ↔ Gen.C13Src.uripostPassLimit passes passNum) ∧
-    (Gen.C13Src.jsonlineNoAmmo ammoNum ↔ ammoNum = 0) :=
-  ⟨rfl, Iff.rfl, Iff.rfl⟩
+/-- the jsonline decoder tests "no ammo" before it counts the pass, and the pass limit at the top of its loop, after the seek -/
+theorem jsonlinePassEnd_bridge (passes passNum ammoNum : Nat) :
+    (Gen.C13Src.jsonlinePassEnd passes passNum ammoNum).1 = passEndCode (jlPassEnd passes passNum ammoNum) ∧
+    ((Gen.C13Src.jsonlinePassEnd passes passNum ammoNum).1 = 0 →
+      (Gen.C13Src.jsonlinePassEnd passes passNum ammoNum).2.1 = ((passNum + 1 : Nat) : Int) ∧
+      (Gen.C13Src.jsonlinePassEnd passes passNum ammoNum).2.2 = true) := by
+  unfold Gen.C13Src.jsonlinePassEnd jlPassEnd passEndCode
+  by_cases ha : ammoNum = 0
+  · simp (disch := omega) [ha, if_pos, if_neg]
+  · by_cases h : passes ≠ 0 ∧ passNum + 1 ≥ passes
+    · simp (disch := omega) [h, ha, if_pos, if_neg]
+    · simp (disch := omega) [h, ha, if_pos, if_neg]
+
+/-- what the provider makes of the two orders is the same: `runFullScan` answers "no ammo" to a pass limit that is reached
+before anything was delivered -/
+theorem jlPassEnd_http (passes passNum ammoNum : Nat) :
+    jlPassEnd passes passNum ammoNum = httpPassEnd passes (passNum + 1) ammoNum ∨
+    (ammoNum = 0 ∧ jlPassEnd passes passNum ammoNum = .stop (.err "noammo") ∧ httpPassEnd passes (passNum + 1) ammoNum = .stop .ok) := by
+  unfold jlPassEnd httpPassEnd
+  by_cases ha : ammoNum = 0
+  · by_cases h : passes ≠ 0 ∧ passNum + 1 ≥ passes
+    · right; simp [ha, h]
+    · left; simp [ha, h]
+  · left; simp [ha]
+
+/-! ### `scanAmmos` of the jsonline decoder -/
+
+/-- the regenerated `scanAmmos` and the model agree for every array, pass limit and pair of counters: the same refusals,
+and the element handed out is the one at the regenerated index, with the same counters afterwards; in particular the
+regenerated `%` never divides by zero and the regenerated index is inside the slice -/
+theorem scanAmmos_bridge (elems : List Bytes) (passes : Nat) (s : JlArr) :
+    match Gen.C13Src.scanAmmos elems.length passes s.passNum s.ammoNum, scanAmmos elems passes s with
+    | .err c, (r, s') => s' = s ∧ ((c = "noammo" ∧ r = .noAmmo) ∨ (c = "passlimit" ∧ r = .passLimit))
+    | .ok (i, pn, an), (.ammo t, s') => indexC elems i = .ok t ∧ pn = s'.passNum ∧ an = s'.ammoNum
+    | _, _ => False := by
+  unfold Gen.C13Src.scanAmmos scanAmmos
+  by_cases hlen : elems.length = 0
+  · simp (disch := omega) [hlen, if_pos, if_neg]
+  · by_cases hp : passes ≠ 0 ∧ s.passNum ≥ passes
+    · simp (disch := omega) [hlen, hp, if_pos, if_neg]
+    · have hne : ((elems.length : Nat) : Int) ≠ 0 := by omega
+      have hcast : ((s.ammoNum : Int) % (elems.length : Int)) = ((s.ammoNum % elems.length : Nat) : Int) :=
+        (Int.natCast_emod _ _).symm
+      have hmod : Int.tmod (s.ammoNum : Int) (elems.length : Int) = (s.ammoNum : Int) % (elems.length : Int) :=
+        Int.tmod_eq_emod_of_nonneg (by omega)
+      have hlt : s.ammoNum % elems.length < elems.length := Nat.mod_lt _ (by omega)
+      have hidx : indexC elems ((s.ammoNum : Int) % (elems.length : Int)) = .ok elems[s.ammoNum % elems.length] := by
+        rw [hcast]
+        unfold indexC
+        rw [if_pos (by omega)]
+        simp only [Int.toNat_natCast, List.getElem?_eq_getElem hlt]
+      have hb : boundC ((s.ammoNum : Int) % (elems.length : Int)) (elems.length : Int) = .ok () := by
+        rw [hcast]
+        unfold boundC
+        rw [if_pos (by omega)]
+      simp (disch := omega) [hlen, hp, tmodC, hne, hmod, hidx, hb, Res.bind, if_pos, if_neg]
+      split <;> simp
 
 /-! ### `MultiPassReader.Read` at the end of the source -/
 
-/-- the end of the source in the model of the repaired reader is the regenerated EOF block: `fruitless` from the bytes of
-the pass and the provider's progress function, the early return, the seek test, in this order -/
-theorem mprRead_bridge (data : Bytes) (passes : Nat) (s : MPR) (hend : data[s.pos]? = none) :
-    Gen.C13Src.mprEofSeq = ["passesCount++", "fruitless", "passBytes=0", "return", "Seek"] ∧
+/-- the end of the source in the model of the repaired reader is the regenerated EOF block, executed in source order:
+the pass is counted, `fruitless` comes from the bytes of the pass and the provider's progress function, the early return,
+the seek test. Whether the block sets `passBytes` back to 0 is read off the regenerated block (`hres`); the theorems
+about the reader hold for both answers. -/
+theorem mprRead_bridge (data : Bytes) (passes : Nat) (s : MPR) (hend : data[s.pos]? = none)
+    (hres : s.resets = decide ((Gen.C13Src.mprEof 1 0 0 false false).2.2.1 = 0)) :
     mprReadByte true data passes s =
-      (let pc := s.passesCount + 1
-       let progress := decide (Gen.C13Src.dpProgress s.ammoNum s.passStart)
-       let fruitless := decide (Gen.C13Src.mprFruitless s.passBytes true progress)
-       let s' : MPR := { s with passesCount := pc, passBytes := 0, passStart := if s.passBytes ≠ 0 then s.ammoNum else s.passStart }
-       if Gen.C13Src.mprReturns fruitless then (.eof, s')
-       else if Gen.C13Src.mprSeeks passes pc then (.again, { s' with pos := 0 })
-       else (.eof, s')) := by
-  refine ⟨rfl, ?_⟩
-  unfold mprReadByte Gen.C13Src.mprReturns Gen.C13Src.mprSeeks Gen.C13Src.mprFruitless Gen.C13Src.dpProgress
+      (let progress := decide (Gen.C13Src.dpProgress s.ammoNum s.passStart)
+       let g := Gen.C13Src.mprEof s.passBytes s.passesCount passes true progress
+       let s' : MPR := { s with passesCount := g.2.2.2.toNat, passBytes := g.2.2.1.toNat,
+                                passStart := if s.passBytes ≠ 0 then s.ammoNum else s.passStart }
+       if g.1 = true then (.eof, s') else if g.2.1 = true then (.again, { s' with pos := 0 }) else (.eof, s')) := by
+  unfold mprReadByte Gen.C13Src.dpProgress
   rw [hend]
   simp only [if_true]
-  by_cases hb : s.passBytes = 0
-  · simp (disch := omega) [hb, if_pos, if_neg]
-  · have hb' : ¬ ((s.passBytes : Int) = 0) := by omega
-    by_cases hp : s.ammoNum > s.passStart
-    · have hp' : ((s.ammoNum : Int) > s.passStart) := by omega
-      have hnf : ¬ (s.passBytes = 0 ∨ ¬ s.ammoNum > s.passStart) := by
-        intro h; rcases h with h | h
-        · exact hb h
-        · exact h hp
-      simp only [hnf, if_false]
-      by_cases hs : passes = 0 ∨ s.passesCount + 1 < passes
-      · have hs' : ((passes : Int) ≤ 0 ∨ ((s.passesCount + 1 : Nat) : Int) < passes) := by omega
-        simp (disch := omega) [hb, hb', hp, hp', hs, hs', if_pos, if_neg]
+  cases hr : s.resets <;> simp [Gen.C13Src.mprEof, hr] at hres
+  all_goals
+    unfold Gen.C13Src.mprEof
+    by_cases hb : s.passBytes = 0
+    · simp (disch := omega) [hb, hr, if_pos, if_neg]
+    · have hb' : ¬ ((s.passBytes : Int) = 0) := by omega
+      by_cases hp : s.ammoNum > s.passStart
+      · have hp' : ((s.ammoNum : Int) > s.passStart) := by omega
+        have hnf : ¬ (s.passBytes = 0 ∨ ¬ s.ammoNum > s.passStart) := by
+          intro h; rcases h with h | h
+          · exact hb h
+          · exact h hp
+        by_cases hs : passes = 0 ∨ s.passesCount + 1 < passes
+        · have hs' : ((passes : Int) ≤ 0 ∨ (s.passesCount : Int) + 1 < passes) := by omega
+          simp (disch := omega) [hb, hb', hp, hp', hs, hs', hnf, hr, if_pos, if_neg]
+          all_goals omega
+        · have hs' : ¬ ((passes : Int) ≤ 0 ∨ (s.passesCount : Int) + 1 < passes) := by omega
+          simp (disch := omega) [hb, hb', hp, hp', hs, hs', hnf, hr, if_pos, if_neg]
+          all_goals omega
+      · have hp' : ¬ ((s.ammoNum : Int) > s.passStart) := by omega
+        have hf : (s.passBytes = 0 ∨ ¬ s.ammoNum > s.passStart) := .inr hp
+        simp (disch := omega) [hb, hb', hp, hp', hf, hr, if_pos, if_neg]
         all_goals omega
-      · have hs' : ¬ ((passes : Int) ≤ 0 ∨ ((s.passesCount + 1 : Nat) : Int) < passes) := by omega
-        simp (disch := omega) [hb, hb', hp, hp', hs, hs', if_pos, if_neg]
-        all_goals omega
-    · have hp' : ¬ ((s.ammoNum : Int) > s.passStart) := by omega
-      have hf : (s.passBytes = 0 ∨ ¬ s.ammoNum > s.passStart) := .inr hp
-      simp (disch := omega) [hb, hb', hp, hp', hf, if_pos, if_neg]
 
 end Pandora.Bridge.C13
